@@ -90,7 +90,12 @@ def run(prog: Program, rep: Report, tier: str) -> None:
             if isinstance(g, tuple) and g and g[0] == "itercount":
                 chunk_terms.add(g[1])
     want_chunks = ("chunks", T.seq("s", (("hx", M, FIRST_RECORD_NIBBLE, -TRAILER_NIBBLES),)), RECORD_NIBBLES)
-    rep.check(chunk_terms == {want_chunks}, "R10.1", "record area and size", where,
+    # the same records written as area[off:off + 32] for off in range(0, len(area), 32); the slices themselves are
+    # pinned by R10.2 (absolute nibble positions of the fields of records 0 and 1)
+    from .. import lib as _lib
+    area_len = _lib.length(I, want_chunks[1], st, None, None)
+    want_range = ("app", "builtins.range", c(0), area_len, c(RECORD_NIBBLES))
+    rep.check(chunk_terms in ({want_chunks}, {want_range}), "R10.1", "record area and size", where,
               f"records are iterated as {[T.show(x)[:120] for x in chunk_terms]}; expected 32-nibble chunks of hexlify(reply)[90:-8] (16-byte records from byte 45, 4-byte trailer)", key="R10.1|slicing")
     empties = [o for o in rets if any(isinstance(g, tuple) and g[0] == "itercount" and g[2] == 0 for g in o.state.pc)]
     ok_empty = len(empties) == 1 and empties[0].value[0] == "obj" and empties[0].state.heap[empties[0].value[1]].kind == "set" and not empties[0].state.heap[empties[0].value[1]].items and len(empties[0].state.pc) == 1
